@@ -427,6 +427,9 @@ func (s *State) diffIOSACLs(al, bl []*cmd, diff []edit.Range) {
 	// block and this line.
 	// highOK: No line with different action is inserted between this
 	// line and next block.
+	// Move into next block is only ignored if both are true. Otherwise
+	// line would be left on other side of some remark of next block
+	// and would be moved by next run.
 	moveACL := func(a *cmdAndPos, b *cmd, before, i int, lowOK, highOK bool) {
 		defer func() { a.cmd = nil }()
 		// Must not ignore move if 'log' attribute has changed.
@@ -435,7 +438,8 @@ func (s *State) diffIOSACLs(al, bl []*cmd, diff []edit.Range) {
 			if lowOK && before > 0 && idx2Block[before-1] == oldID {
 				return
 			}
-			if highOK && before < len(idx2Block) && idx2Block[before] == oldID {
+			if lowOK && highOK &&
+				before < len(idx2Block) && idx2Block[before] == oldID {
 				return
 			}
 		}
